@@ -369,6 +369,10 @@ func (s *State) mutate(t *rapid.T, o GenOpts, label string) string {
 			c.Log = genLog(t, label+"log")
 		} else {
 			c.Permit = !c.Permit
+			// A device cannot hold two entries that differ only in 'log'.
+			if hasDup(acl, &c) {
+				return "noop"
+			}
 		}
 		acl[i] = &c
 		return "chgLine"
@@ -685,7 +689,7 @@ func (s *State) decorate(t *rapid.T, b *State) []string {
 	if rapid.IntRange(0, 2).Draw(t, "decIntf") != 0 && len(s.Intfs) < len(hwNames) {
 		nif := "ext9"
 		if !s.hasNameif(nif) || len(s.Intfs) == 0 {
-			s.Intfs = append(s.Intfs, &Intf{HW: hwNames[len(s.Intfs)], Nameif: nif})
+			s.Intfs = append(s.Intfs, &Intf{HW: hwNames[len(s.Intfs)], Nameif: nif, Shut: rapid.IntRange(0, 2).Draw(t, "decIntfShut") == 0})
 		}
 		name := rapid.SampledFrom([]string{"ext9_in", "ext9_in-DRC-0", "outside_in-DRC-3"}).Draw(t, "decIntfACL")
 		if s.ACLs[name] == nil {
